@@ -591,7 +591,7 @@ def run(run: Run):
             run.notes.append(f'listed finding {key} no longer reproduces with its stored witness')
     for s in directed_scripts(run.tier):
         do(s, 'directed')
-    n = 250 if run.tier == "quick" else 2000
+    n = 250 if run.tier == "quick" else 1200
     for _ in range(n):
         do(gen_script(run.rng), 'random')
 
